@@ -104,7 +104,11 @@ def ival(x): return P().acc('int')(x)
 def bval(x): return P().acc('bool')(x)
 def sval(x): return P().acc('str')(x)
 def addr(x): return P().acc('ref')(x)
-def items(x): return P().acc('tup')(x)
+def items(x):
+    """items(tup(s)) is s: done at construction, E-matching does not look through the constructor/accessor pair"""
+    if z3.is_app(x) and x.num_args() == 1 and x.decl().eq(P().ctor('tup')):
+        return x.arg(0)
+    return P().acc('tup')(x)
 def fid(x): return P().acc('flt')(x)
 def fnid(x): return P().acc('fn')(x)
 def vfield(cls, fname, x):
